@@ -1,14 +1,15 @@
 package main
 
 import (
-	"os/exec"
-	"context"
 	"bytes"
+	"context"
 	"encoding/json"
 	"flag"
 	"fmt"
 	"os"
+	"os/exec"
 	"path/filepath"
+	"regexp"
 	"runtime"
 	"sort"
 	"strconv"
@@ -256,7 +257,10 @@ func cmdCheck(args []string) int {
 			// failed: known finding?
 			handled := false
 			for _, f := range ff.Findings {
-				if f.Property != prop || f.Obligation != r.Ob.Name {
+				// (the return-site ordinal is not part of a finding's identity: an edit that adds or
+				// removes a return statement renumbers them; the residual obligation below still
+				// confines the finding to its carve-out at whichever site it is met)
+				if f.Property != prop || stripRetOrdinal(f.Obligation) != stripRetOrdinal(r.Ob.Name) {
 					continue
 				}
 				ok, why := residual(o, r, f, full)
@@ -510,12 +514,19 @@ var boundedTests = map[string][]string{
 	"C03": {"TestKvcBoundedRowBatch"},
 	"C04": {"TestKvcBoundedRewrite", "TestKvcBoundedRewriteText"},
 	"C05": {"TestKvcBoundedAliasExpansion", "TestKvcBoundedAliasNames", "TestKvcBoundedRowBatch"},
+	"C07": {"TestKvcBoundedOrder"},
+	"C08": {"TestKvcBoundedLimit"},
 	"C09": {"TestKvcBoundedAggregates"},
+	"C11": {"TestKvcBoundedLimit"},
+	"C12": {"TestKvcBoundedPutRemove"},
 	"C15": {"TestKvcBoundedPrecedenceChains", "TestKvcBoundedParseRender"},
 	"C16": {"TestKvcBoundedSpacing"},
 }
 
 var boundedBound = map[string]string{
+	"TestKvcBoundedLimit":            "stores of {0, 1, 5, 33, 70} pairs, batch sizes {1, 2, 32}, six statements (plain, ordered by total orders, aggregated), offsets {0, 1, 2, 31, 32, 33, 69, 70, 71} x counts {0, 1, 2, 31, 32, 33, 100}, row and batch mode against the slice of the unlimited result; DELETE ... LIMIT against the SELECT with the same limit (5 526 statements)",
+	"TestKvcBoundedOrder":            "two stores (45 pairs with many ties; 10 pairs with integers around 2^53 and at the int64 limits), ten ORDER BY statements (text, integer, float, aggregate columns, ASC / DESC, up to three fields, a repeated field), batch sizes {1, 3, 32}, row and batch mode: permutation of the unordered result and adjacent rows in the documented order",
+	"TestKvcBoundedPutRemove":        "every `put` of three pairs over four keys and four value forms (literal, key, upper(key), key + 'x'): 4 096 statements on a store with guarded slices, polled twice; a `remove` of two keys after every 64th",
 	"TestKvcBoundedRewriteText":      "every `+` chain of at most four operands over {'a', 'b', key, upper(value), str(int(value)), lower(key)} in all parenthesisations (6 948 expressions x 3 pairs), evaluated before and after ExpressionOptimizer",
 	"TestKvcBoundedSpacing":          "every sequence of at most four tokens from a pool of 20 token texts, each rendered with every choice of nothing / blank / tab-newline run in its optional gaps (4.4 million texts)",
 	"TestKvcBoundedPrecedenceChains": "every unparenthesised chain of at most four binary operators (69 904 texts) against a split-at-the-weakest-operator oracle; print/re-parse of the accepted ones",
@@ -568,3 +579,7 @@ func runBounded(prop string) []boundedRes {
 	}
 	return res
 }
+
+var retOrdinalRE = regexp.MustCompile(`@ret[0-9]+$`)
+
+func stripRetOrdinal(name string) string { return retOrdinalRE.ReplaceAllString(name, "") }
